@@ -116,6 +116,7 @@ var c20ImplTemplates = []struct{ name, code string }{
 var c20ImplValues = []struct{ name, lit string }{
 	{"int", "3"}, {"zero", "0"}, {"float", "2.0"}, {"numstr", "\"2\""}, {"str", "\"ab\""}, {"true", "true"}, {"nil", "nil"}, {"neg", "-1"},
 	{"chan", "make(chan int64, 2)"}, {"ichan", "make(chan interface, 2)"}, {"slice", "[1]"},
+	{"filled", "func() { c = make(chan int64, 2); c <- 7; return c }()"}, // a channel holding a value: `out <- v` forwards it
 }
 
 func c20ImplPrograms(sample *Rand) []c20Prog {
@@ -123,7 +124,7 @@ func c20ImplPrograms(sample *Rand) []c20Prog {
 	chains := c20Chains(2)
 	for _, t := range c20ImplTemplates {
 		for _, v := range c20ImplValues {
-			if strings.HasPrefix(t.name, "chan-send") && strings.HasSuffix(v.name, "chan") {
+			if strings.HasPrefix(t.name, "chan-send") && (v.name == "chan" || v.name == "ichan") {
 				continue // `c <- v` with a channel on the right is a receive from v: it would block
 			}
 			base := "v = " + v.lit + "\n"
